@@ -740,7 +740,7 @@ func (x *pathCtx) concretizeByModel(v value, what string) int64 {
 	}
 	x.modelSplits++
 	if x.modelSplits > 6 {
-		panic(budgetErr{"more than 6 distinct values at concretize-by-model sites (" + what + ")"})
+		panic(budgetErr{msg: "more than 6 distinct values at concretize-by-model sites (" + what + ")"})
 	}
 	eq := x.tt.Eq(s.t, x.tt.BV(w, m))
 	if x.decide([]*Term{eq, x.tt.Not(eq)}, "concretize "+what) == 0 {
